@@ -341,7 +341,7 @@ CORPUS = [
     "Y = X['2000'] + X[`2001`] + X[\"a\"]", 'Y = `self.k` * X', 'Y = X if Z > 0 else W[-1]', 'Y = not_X + is_open + Pin + in_',
     'Y = max(X, Z[-2]) + min (W, 1)', 'Y = np.sqrt(X) + abs(-Z)', 'Y = <e> + {a}[-1] + < eps >[ 2 ]', 'Y = 2e5 * X', 'Y = X.T',
     'Y = X\nZ = Y[-1]\nW = Z + Y', 'Y = X\n```\nfoo = 1\n```\nZ = W', '`x = 1`', '', 'Y = a < b > c', 'Y = 1 if{a}else 2', 'Y = X==Z',
-    'Y = X\nY = X', 'Y = f(X) + g.h(Z)', '```\npass\n```\nY = X', 'Y = X\n`k = 1`', 'Z==()', 'Y[=1]', 'Y = (X +\n  Z)', '(Y =\n X)', 'Y = X[ -1 ]+X[+1]',
+    'Y = X\nY = X', 'Y = f(X) + g.h(Z)', '```\npass\n```\nY = X', 'Y = X\n`k = 1`', '```\nx = Y[t] + 1\nz = 2\n```\nY = X + Z', '`pass`', '```\npass\n```', 'Z==()', 'Y[=1]', 'Y = (X +\n  Z)', '(Y =\n X)', 'Y = X[ -1 ]+X[+1]',
 ]
 
 
@@ -615,9 +615,7 @@ def oracle(case, obs):
         return fails
     if obs.get('graph') != 'ok':
         verb = [x.split('|') for x in obs['sym'].split(';') if x]
-        if obs['graph'] == 'ValueError' and any(f[1] == 'VERBATIM' and f[4] != '-' and '=' not in pc.unhx(f[4][1:]) for f in verb):
-            add('graph-raises|verbatim-block-without-equals', 'symbols_to_graph raised ValueError: the `equation` of a verbatim block has no "=" to split at')
-        elif (obs['graph'] == 'ValueError' and case['k'] == 's'
+        if (obs['graph'] == 'ValueError' and case['k'] == 's'
               and any(f[1] == 'ENDOGENOUS' and f[4] != '-' and '=' not in pc.unhx(f[4][1:]) for f in verb)):
             add('graph-raises|equation-without-equals', 'symbols_to_graph raised ValueError: the parser produced a normalised equation without "=" '
                 '(an index bracket that spans the "=" of the statement)')
@@ -643,6 +641,11 @@ def oracle(case, obs):
     for n, a in nodes.items():
         if a is not None and varlike(n) and TERM_ID.fullmatch(n) and n not in lhs_of:
             add('attribute-on-non-lhs', 'node %s carries an equation but is on no left-hand side' % n)
+    # only the equations of endogenous variables define terms: a verbatim block (its code sits in the same Symbol field) adds nothing
+    endo_eqs = [e for _n, e in obs['eqs'] if e is not None]
+    for n in nodes:
+        if not any(n in e for e in endo_eqs):
+            add('node-from-non-equation', 'node %r occurs in no equation of an endogenous variable' % n)
     for a, b in edges:
         if a not in nodes or b not in nodes:
             add('dangling-edge', 'edge %s -> %s has an endpoint that is not a node' % (a, b))
